@@ -320,9 +320,12 @@ func dischargeAll(dir string, decls func(vc *FuncVC) string, vcs []*FuncVC, filt
 					// conjunction of per-return goals: discharged iff every part is
 					var total int64
 					var res *SolveResult
-					saved := j.o.Goal
+					saved, savedBlk := j.o.Goal, j.o.Blk
 					for i, g := range j.o.SubGoals {
 						j.o.Goal = g
+						if i < len(j.o.SubBlks) {
+							j.o.Blk = j.o.SubBlks[i]
+						}
 						q := buildQuery(decls(j.vc), j.vc, j.o, false)
 						r := solveOne(dir, fmt.Sprintf("%s.ret%d", j.o.Name, i), q, to, false)
 						total += r.Ms
@@ -333,7 +336,7 @@ func dischargeAll(dir string, decls func(vc *FuncVC) string, vcs []*FuncVC, filt
 						}
 						res = r
 					}
-					j.o.Goal = saved
+					j.o.Goal, j.o.Blk = saved, savedBlk
 					res.Ms = total
 					j.o.Result = res
 					continue
